@@ -169,7 +169,11 @@ def correspond(ctx):
     dist = {'writers': {w: sum(1 for c in cases if c['writer'] == w) for w in WRITERS},
             'potable_targets': {t: sum(1 for c in pcases if c['target'] == t) for t in ('GULP', 'excel', 'eam_adp', 'excel_eam')},
             'excel_nrho_ne_nr': sum(1 for c in cases if c['writer'] == 'excel_eam' and c['nr'] != c['nrho'])}
-    return {'evaluations': len(allc), 'cases': allc, 'nontrivial': core.distinct_count([c for c in allc if c.get('nr', 0) >= 3]),
+    # how the numbers are printed (coq/model/NumFormat.v): the cells rendered in this run, edge values and random doubles
+    import fmt_common
+    nfmt, fdis, fdist = fmt_common.check_formats('C19', ctx['rng'], [11, 8, 9, 10], ctx['thorough'])
+    dis = fdis + dis
+    return {'number_format_cells': nfmt, 'number_format': fdist, 'evaluations': nfmt + len(allc), 'cases': allc, 'nontrivial': core.distinct_count([c for c in allc if c.get('nr', 0) >= 3]),
             'rule': 'pair/EAM/ADP models and recording callables through GULP_PairTabulation, writePotentials(GULP), ADP_EAMTabulation, writeFuncFL, Excel_PairTabulation, Excel_EAMTabulation, and potable targets GULP, excel, eam_adp, excel_eam; '
                     'whole output compared with the rendered model (workbooks read back cell by cell); nr != nrho generated deliberately; non-trivial = nr >= 3',
             'samples': cases[:2] + pcases[:1], 'distribution': dist, 'disagreements': dis[:20], 'oracle_cases': allc}
@@ -230,7 +234,7 @@ def oracle(case):
                     k = last.get(tuple(sorted([names[i], names[j]])))
                     for m in range(nr):
                         want = 0.0 if k is None else val((code, k, 0), m * f['dr'])
-                        if abs(rest[pos + m] - want) > 1e-12 * max(1.0, abs(want)):
+                        if abs(rest[pos + m] - want) > 1e-9 * max(1.0, abs(want)):
                             fails.append('%s block (%s,%s) value %d is %r, function gives %r (unscaled)' % (key, names[i], names[j], m, rest[pos + m], want)); break
                     pos += nr
         return fails
@@ -315,6 +319,18 @@ def check_excel_eam(text, tab):
                 if abs(float(cv) - w) > 1e-10 * max(1.0, abs(w)): fails.append('%s[%s] row %d is %r, function gives %r' % (nm, sp, k, cv, w)); break
     return fails
 
+def adp_value(defn, r):
+    """the angular functions of the generator, written out by hand (a definition without a range is '>0 ...')"""
+    import math
+    t = defn.split()
+    if t[0] == '>=0': return float(t[2])                                   # '>=0 as.constant X'
+    if r <= 0: return 0.0
+    if t[0] == 'as.polynomial': return float(t[1]) + float(t[2]) * r
+    if t[0] == 'as.bornmayer': return float(t[1]) * math.exp(-r / float(t[2]))
+    if t[0] == 'as.morse':
+        g_, rs, D = float(t[1]), float(t[2]), float(t[3]); return D * (math.exp(-2.0 * g_ * (r - rs)) - 2.0 * math.exp(-g_ * (r - rs)))
+    raise ValueError(defn)
+
 def check_adp(text, tab, case):
     fails = []
     f = p_c03.parse_setfl(text)
@@ -325,12 +341,13 @@ def check_adp(text, tab, case):
     for part, pots, key in ((0, tab.dipole_potentials, 'dips'), (1, tab.quadrupole_potentials, 'quads')):
         d = {tuple(sorted([p.speciesA, p.speciesB])): p for p in pots}
         declared = {tuple(sorted(k)) for k, _ in case[key]}
+        defn_of = {tuple(sorted(k)): dd for k, dd in case[key]}
         pos = part * nblk * nr
         for i in range(n):
             for j in range(i + 1):
                 k = tuple(sorted([names[i], names[j]]))
                 for m in range(nr):
-                    want = d[k].energy(m * f['dr']) if k in declared and k in d else 0.0
+                    want = adp_value(defn_of[k], m * f['dr']) if k in declared else 0.0          # from the declaration, not from the built tabulation
                     if abs(rest[pos + m] - want) > 1e-12 * max(1.0, abs(want)):
                         fails.append('%s block (%s,%s) value %d is %r, function gives %r' % (key, names[i], names[j], m, rest[pos + m], want)); break
                 pos += nr
